@@ -1,8 +1,10 @@
 package mon
 
 import (
+	"encoding/hex"
 	"encoding/json"
 	"fmt"
+	"strings"
 	"verifharness/gen"
 
 	"verifharness/core"
@@ -46,11 +48,6 @@ func replayWriteFamily(check func(c *Case, rep *core.Report)) func(ctx *core.Ctx
 		rep.Eval(1)
 		check(c, rep)
 	}
-}
-
-// WorkerMain is the entry point of the isolated child process (C10, C18, C19).
-func WorkerMain(args []string) {
-	panic("worker not built yet")
 }
 
 func init() {
@@ -162,5 +159,23 @@ func init() {
 	Registry["C07"] = Monitor{Run: RunC07, Replay: func(ctx *core.Ctx, rep *core.Report, w map[string]any) {
 		idx, _ := witnessInt(w, "c07_case")
 		checkC07Case(ctx, idx, rep)
+	}}
+}
+
+func init() {
+	Registry["C10"] = Monitor{Run: RunC10, Replay: func(ctx *core.Ctx, rep *core.Report, w map[string]any) {
+		hx, _ := w["input_hex"].(string)
+		data, err := hex.DecodeString(strings.TrimSuffix(hx, "...(truncated)"))
+		if err != nil {
+			rep.Inconclusive("witness input unreadable")
+			return
+		}
+		kind, _ := w["input_kind"].(string)
+		items := []WorkItem{{ID: 0, Kind: kind, Data: data, Aux: data}}
+		mode := "c10"
+		if s, _ := w["stream"].(string); s == "limits" {
+			mode = "c10limits"
+		}
+		judgeC10(ctx, rep, items, runIsolated(ctx, mode, items, 1, 1, rep), "replay")
 	}}
 }
